@@ -83,6 +83,16 @@ CHECKS = {
          "Register, authenticate and unknown-handle runs for every key-handle length 0..255 and the product of challenge/application patterns, counters, presence and both stores; all well-formed extended-length request frames parsed back; all sequences of register/authenticate over two handles and two applications to the depth bound on both stores. Signatures are verified over the byte strings the U2F raw-message specification prescribes; raw encodings are parsed field by field.",
          "Signature encoding raw or DER accepted; authentication with a known handle under another application is recorded, not judged.",
          "DESIGN.md §2 C17"),
+ "C07": ("fault_enumeration",
+         "exhaustive enumeration of fault plans over the store calls of a ceremony x cancellation after every possible number of resumptions, on the real Authenticator; store snapshots and call log compared with a model applying only the calls that returned Ok",
+         "For eleven request shapes and three store stacks every single store call is failed with six status codes (all 256 in thorough), every subset of calls is failed together, and for every such plan the ceremony is additionally dropped after each k < polls-to-completion (every store call and the user step suspend once). The store snapshot after each run must equal the one before (registration error), before or before+one complete record (cancelled registration), before modulo counter+1 (failed/cancelled assertion); success requires an accepted save/update carrying the reported counter; an injected save/update fault must surface as an error.",
+         "A fault replaces the store call; lookup faults of the exclude-list need not surface; error bytes recorded, not compared.",
+         "DESIGN.md §2 C07"),
+ "C19": ("model_checking",
+         "stateless schedule exploration (deviation-bounded DFS over a harness-owned single-threaded executor) of 2-3 concurrent ceremonies on real Authenticators sharing the real tokio lock wrappers",
+         "Every complete interleaving at suspension points of two concurrent ceremonies (no preemption bound) and every interleaving with at most 2 (quick) / 3 (thorough) preemptions of three ceremonies is executed for assert/assert (same and different credential), assert/register, register/register and three-task mixes over Arc<Mutex<_>> and Arc<RwLock<_>> around MemoryStore and Option<Passkey>; after each schedule: no deadlock/livelock, every registered credential present, counters of successful assertions per credential pairwise distinct with maximum equal to the stored value. The lost-update race on the counter is a known finding (10 keys).",
+         "Await-point interleavings only; tokio's lock internals trusted; suspension points are owned by harness shims around every store call, inside the lock, and in user validation.",
+         "DESIGN.md §2 C19"),
 }
 
 NOT_BUILT = "check not built yet in this revision of the harness (planned per DESIGN.md §2); no claim is made"
